@@ -14,7 +14,7 @@ from props.sched import World
 
 MANIFEST = dict(
     category="proof",
-    technique="the real run_feedback_filter with its while loop cut at the AST level (invariant, lexicographic variant, exit postcondition), executed on z3 terms for cursors and time stamps with every callee replaced by its contract stub (Integrator per C02, measurement models per C06, searchsorted / unique / hstack per numpy's documented behaviour), numeric payloads opaque; verification conditions discharged by z3 over all table lengths and all real time stamps; counter-models minimised and replayed on the real filter; helper functions of the module share the stub namespace (extraction / inlining of helpers does not change the proof); Measurement objects are frame-tracked; corrections at one stamp are threaded sequentially (data-flow contract of kalman.correct)",
+    technique="the real run_feedback_filter with its while loop cut at the AST level (invariant, lexicographic variant, exit postcondition), executed on z3 terms for cursors and time stamps with every callee replaced by its contract stub (Integrator per C02, measurement models per C06, searchsorted / unique / hstack per numpy's documented behaviour), numeric payloads opaque; verification conditions discharged by z3 over all table lengths and all real time stamps; counter-models minimised and replayed on the real filter; helper functions of the module share the stub namespace (extraction / inlining of helpers does not change the proof); Measurement objects are frame-tracked; corrections at one stamp are threaded sequentially (data-flow contract of kalman.correct); Bounded stand-ins shared by all properties (labelled bounded, never counted as proved): the argument-form battery of the modules under contract (batches of 1 and 1200 rows, integer-typed values, labels / columns in other orders, extra labels); where the frame analysis finds state that outlives a call (a cache, a memo) the frame obligation becomes a dynamic purity contract against pristine process states; names the proofs replace by scipy contracts are checked to be bound to the library's functions (else a differential test).",
     text="For ALL increment tables (any length N>=1, any strictly increasing stamps, so irregular sampling and gaps), all measurement time sets of up to two sensor objects with arbitrary real stamps (coincident with IMU samples, between them, several in one interval, shared, outside the span), every positive time_step and measurements in {None, [], one sensor, two sensors}: the prologue's stub preconditions hold (np.hstack gets at least one array), the clipped, sorted, unique measurement array with its +inf sentinel is what the loop indexes; the loop invariant (cursor == increments applied, 0<=mi<=K, no stamp overdue: time <= M[mi], result times strictly increasing integrator times) holds initially and is preserved by every path through the real loop body; every batch handed to the integrator is the contiguous slice starting at the increments applied so far (so the trajectory index is the initial time followed by every increment time once, by the integrator contract); each processed stamp is evaluated by every sensor exactly once at its own time, innovation rows are appended exactly for the sensors that hold it and stamped with it; the lexicographic measure (N-ii, K-mi) decreases (termination); all divisors are non-zero; at exit ii = N and every stamp before the end has been processed. 'Finite outputs' beyond division by zero is not modelled (floats as reals) and is only exercised by the run-time stand-in.",
     note="A1, A6; contracts assumed for callees: Integrator (C02), compute_matrices None iff time absent (C06), _correct_increments preserves the row/batch identity, np.unique/sort/boolean mask/append/searchsorted per numpy documentation; Increments schema dt>0, stamps strictly increasing, initial time < first stamp; the step from per-iteration obligations to the whole-run statement is induction over iterations (paper argument); overflow / Cholesky breakdown not modelled.",
 )
